@@ -817,7 +817,9 @@ fn parse_opts(args: &[String]) -> Opts {
     tier: "quick".into(),
     flavours: Vec::new(),
     mode: "conc".into(),
-    jobs: std::thread::available_parallelism().map(|n| n.get()).unwrap_or(4),
+    // default worker count: `CHANH_JOBS` (shared machines), else the number of cpus; `--jobs` overrides both
+    jobs: std::env::var("CHANH_JOBS").ok().and_then(|v| v.parse::<usize>().ok()).filter(|n| *n >= 1)
+      .unwrap_or_else(|| std::thread::available_parallelism().map(|n| n.get()).unwrap_or(4)),
     lo: 0,
     hi: usize::MAX,
     atomics: false,
